@@ -13,10 +13,15 @@
    Schema and rows are computed by separate code paths in the implementation and therefore by
    separate functions here; that they agree is the content of the theorems in Proofs/Schema.v.
 
+   The string formats of generated column names (expression __str__, aggregate names, pivot names)
+   and the tables saying which join type keeps the right side's fields -- separately for the schema
+   (merge_schemas) and for the rows (merge_rows_joined_on_values) -- are NOT written here: they are
+   regenerated from the source on every run into PV.Gen.SchemaNames (translator/kernels/c15.py).
+
    Cell values are Python ints and None (PV.Base.Val.val: VInt / VNone); pivot values may also be
    strings (VStr).  Definitions only -- no proofs in this file. *)
 From Coq Require Import String Ascii ZArith NArith List Bool.
-Require Import PV.Base.Val.
+Require Import PV.Base.Val PV.Gen.SchemaNames.
 Import ListNotations.
 Open Scope Z_scope.
 Close Scope string_scope.
@@ -129,17 +134,15 @@ Inductive expr :=
 | EAdd (a b : expr) | EMul (a b : expr) | ENeg (a : expr)
 | EAlias (e : expr) (n : name).
 
-Definition sp : N := 32%N.
-Definition paren (body : name) : name := (40%N :: body) ++ [41%N].
 Fixpoint expr_str (e : expr) : name :=
   match e with
   | ECol n => n
   | ELit (VInt z) => dec_of_Z z
-  | ELit VNone => s2n "NULL"
+  | ELit VNone => lit_null
   | ELit _ => s2n "?"
-  | EAdd a b => paren (expr_str a ++ [sp; 43%N; sp] ++ expr_str b)
-  | EMul a b => paren (expr_str a ++ [sp; 42%N; sp] ++ expr_str b)
-  | ENeg a => paren ([45%N; sp] ++ expr_str a)
+  | EAdd a b => fmt_add (expr_str a) (expr_str b)
+  | EMul a b => fmt_mul (expr_str a) (expr_str b)
+  | ENeg a => fmt_neg (expr_str a)
   | EAlias _ n => n
   end.
 
@@ -315,6 +318,11 @@ Definition union_by_name (f g : frame) : res pre :=
 
 (* ---------- joins ---------- *)
 Inductive jointype := JInner | JLeft | JRight | JFull | JSemi | JAnti.
+Definition gh (how : jointype) : ghow :=
+  match how with
+  | JInner => G_INNER_JOIN | JLeft => G_LEFT_JOIN | JRight => G_RIGHT_JOIN
+  | JFull => G_FULL_JOIN | JSemi => G_LEFT_SEMI_JOIN | JAnti => G_LEFT_ANTI_JOIN
+  end.
 
 Definition first_named (fs : list field) (c : name) : res field :=
   match find (fun fld => name_eqb (fname fld) c) fs with
@@ -332,7 +340,7 @@ Definition merge_schemas (f g : frame) (how : jointype) (on : list name) : res (
                    | JFull => map (fun fld => PNew (fname fld)) lon
                    | _ => map (POld) lon
                    end in
-  let right_part := match how with JSemi | JAnti => [] | _ => map POld other_right end in
+  let right_part := if schema_keeps_right (gh how) then map POld other_right else [] in
   Ok (on_fields ++ map (POld) other_left ++ right_part).
 
 Definition null_row (names : list name) : row := (names, map (fun _ => VNone) names).
@@ -354,13 +362,12 @@ Definition merge_joined (f g : frame) (how : jointype) (on : list name)
                    | Some lr => Ok (map (fun fv => (fname (fst fv), snd fv))
                                         (filter (fun fv => not_in lon (fst fv)) (combine (fields f) (snd lr))))
                    | None => Err "TypeError" end;
-  do right_parts <- match how with
-                    | JSemi | JAnti => Ok []
-                    | _ => match r' with
-                           | Some rr => Ok (map (fun fv => (fname (fst fv), snd fv))
-                                                (filter (fun fv => not_in ron (fst fv)) (combine (fields g) (snd rr))))
-                           | None => Err "TypeError" end
-                    end;
+  do right_parts <- (if row_has_right_parts (gh how)
+                     then match r' with
+                          | Some rr => Ok (map (fun fv => (fname (fst fv), snd fv))
+                                               (filter (fun fv => not_in ron (fst fv)) (combine (fields g) (snd rr))))
+                          | None => Err "TypeError" end
+                     else Ok []);
   Ok (row_of_pairs (on_parts ++ left_parts ++ right_parts)).
 
 Fixpoint vals_eqb (a b : list val) : bool :=
@@ -415,11 +422,11 @@ Inductive aggfn := ACount | ASum | AMin | AMax.
 Record agg := mkAgg { a_fn : aggfn; a_arg : option expr (* None: count("*") = count(lit(1)) *); a_alias : option name }.
 
 Definition aggfn_str (fn : aggfn) : name :=
-  match fn with ACount => s2n "count" | ASum => s2n "sum" | AMin => s2n "min" | AMax => s2n "max" end.
+  match fn with ACount => name_count | ASum => name_sum | AMin => name_min | AMax => name_max end.
 Definition agg_str (a : agg) : name :=
   match a_alias a with
   | Some n => n
-  | None => aggfn_str (a_fn a) ++ paren (match a_arg a with Some e => expr_str e | None => s2n "1" end)
+  | None => fmt_call (aggfn_str (a_fn a)) (match a_arg a with Some e => expr_str e | None => count_star_arg end)
   end.
 
 Fixpoint ints_of (vs : list val) : list Z :=
@@ -466,14 +473,14 @@ Definition stat_names_schema (pvals : option (list val)) (aggs : list agg) : lis
   match pvals with
   | None => map agg_str aggs
   | Some vs => if Nat.eqb (length aggs) 1 then map pv_str vs
-               else flat_map (fun pv => map (fun a => pv_str pv ++ [95%N] ++ agg_str a) aggs) vs
+               else flat_map (fun pv => map (fun a => pivot_name_schema (pv_str pv) (agg_str a)) aggs) vs
   end.
 (* names as get_pivoted_stats / str(stat) build them for every ROW (alias(pivot_value) must be a str) *)
 Definition stat_name_row (single : bool) (cell : option val) (a : agg) : res name :=
   match cell with
   | None => Ok (agg_str a)
   | Some pv => if single then match pv with VStr s => Ok s | _ => Err "TypeError" end
-               else Ok (pv_str pv ++ [95%N] ++ agg_str a)
+               else Ok (pivot_name_row (pv_str pv) (agg_str a))
   end.
 Definition pivot_cells (pvals : option (list val)) : list (option val) :=
   match pvals with None => [None] | Some vs => map Some vs end.
